@@ -82,7 +82,7 @@ Definition agree02 (c : rcase) : bool :=
 Definition agree01 (c : rcase) : bool :=
   agree_parse c &&
   match rc_obs_parse c with
-  | OOk => outcome_eqb (rc_obs_encode c) OOk && implb (content_equal c) (rc_out_valid c)
+  | OOk => outcome_eqb (rc_obs_encode c) OOk && implb (rc_in_valid c && content_equal c) (rc_out_valid c)
   | _ => true
   end.
 
